@@ -184,7 +184,10 @@ def to_dict(spec):
                 key = qual_full(spec, b, s) + a1(r, c)
             d[key] = f
         else:
-            d[qual_full(spec, b, s) + a1(r, c)] = const_out(cell['v'])
+            v = const_out(cell['v'])
+            if isinstance(v, str) and v.startswith('='):
+                v = '="%s"' % v.replace('"', '""')  # text that looks like a formula: the dictionary form spells it as a text formula
+            d[qual_full(spec, b, s) + a1(r, c)] = v
     for nm in spec.get('names', []):
         d[nm['name']] = '=' + (spec['names'][nm['alias']]['name'] if 'alias' in nm else rect_id_raw(spec, nm['rect'], ab=True))
     for fn in spec.get('fnames', []):
@@ -593,6 +596,13 @@ def _const(errors=True):
     if errors:
         opts.append(st.sampled_from(ERR_CONST[:4]).map(lambda e: ['E', e]))
     return st.one_of(*opts)
+
+
+TXT_FORMULA_LIKE = ['=A1*2', '== total ==', '=x', '=SUM(']  # stored text (typed with a leading apostrophe) that looks like a formula
+
+
+def const_with_formula_like_text():
+    return st.one_of(_const(), _const(), _const(), st.sampled_from(TXT_FORMULA_LIKE))
 
 
 @st.composite
